@@ -334,11 +334,14 @@ def main():
         body = [s_ for s_ in m.body if not is_log_call(s_) and not (isinstance(s_, ast.Expr) and isinstance(s_.value, ast.Constant))]
         if len(body) < 2 or ast.unparse(body[-1]) != "return self":
             raise GenError(name + ": expected ...; return self")
-        ev = body[-2]
-        if not (isinstance(ev, ast.Expr) and isinstance(ev.value, ast.Call) and ast.unparse(ev.value.func) == "self.pointerEvent"):
-            raise GenError(name + ": expected exactly one self.pointerEvent(...) before the return")
+        evs = [s_ for s_ in body if isinstance(s_, ast.Expr) and isinstance(s_.value, ast.Call) and ast.unparse(s_.value.func) == "self.pointerEvent"]
+        if len(evs) != 1:
+            raise GenError(name + ": expected exactly one self.pointerEvent(...)")
+        ev = evs[0]
+        k_ = body.index(ev)
+        before, after = body[:k_], body[k_ + 1:-1]
         inputs = {"self.x": "cx", "self.y": "cy", "self.buttons": "cb", **{p_: p_ for p_ in ps}}
-        env = run_block(body[:-2], inputs)
+        env = run_block(before, inputs)
         args = list(ev.value.args) + [None] * (3 - len(ev.value.args))
         for kw in ev.value.keywords:
             if kw.arg != "buttonmask" or args[2] is not None:
@@ -347,11 +350,17 @@ def main():
         if any(a_ is None for a_ in args) or len(args) != 3:
             raise GenError(name + ": pointerEvent needs x, y and the button mask")
         evt = [zexpr(a_, env) for a_ in args]
-        gs = [f"(0 <=? {zexpr(g_, inputs)})" for g_ in shift_guards(body[:-2])]
+        # does any statement before the event assign an attribute?  (then a raising pointerEvent leaves it changed)
+        early = any(target_key(t_) is not None and target_key(t_).startswith("self.")
+                    for s_ in before for n_ in ast.walk(s_) if isinstance(n_, (ast.Assign, ast.AugAssign))
+                    for t_ in ([n_.target] if isinstance(n_, ast.AugAssign) else [e_ for tt in n_.targets for e_ in (tt.elts if isinstance(tt, ast.Tuple) else [tt])]))
+        env = run_block(after, env)
+        gs = [f"(0 <=? {zexpr(g_, inputs)})" for g_ in shift_guards(before + after)]
         allp = ["cx", "cy", "cb"] + ps
         out.append(definition("gen_" + name, allp, "(Z * Z * Z) * (Z * Z * Z)",
                               f"(({env['self.x']}, {env['self.y']}, {env['self.buttons']}), ({evt[0]}, {evt[1]}, {evt[2]}))"))
         out.append(definition("gen_" + name + "_defined", allp, "bool", " && ".join(gs) if gs else "true"))
+        out.append(f"Definition gen_{name}_commits_after_event : bool := {'false' if early else 'true'}.\n")
     m = method(client, "VNCDoToolClient", "mousePress")
     body = [ast.unparse(s_) for s_ in m.body if not is_log_call(s_) and not (isinstance(s_, ast.Expr) and isinstance(s_.value, ast.Constant))]
     if body != ["self.mouseDown(button)", "self.mouseUp(button)", "return self"]:
